@@ -20,6 +20,42 @@ CHECKS = {
             dict(name="histories", test="TestHistories", checks=(3000, 300000), shards=(4, 14), timeout=(240, 3000)),
         ]),
 
+    "C07": dict(
+        pkg="p_broker", level="exploration",
+        technique='model-based property testing of generated SUBSCRIBE/UNSUBSCRIBE requests (1-12 filters, invalid/repeated/overlapping filters, out-of-range QoS) against a real broker, cut at barriers',
+        level_text="Each generated SUBSCRIBE must be answered before the next PINGRESP by exactly one SUBACK with the request's identifier and one return code per listed filter (granted QoS for valid filters, 0x80 or a QoS for rejected ones) unless the broker closes the connection; each UNSUBSCRIBE by exactly one UNSUBACK; publishes placed before and after the acknowledgements check that every listed filter took effect (delivered after SUBACK, not delivered after UNSUBACK) using the routing oracle of C01. Sampling.",
+        level_note='Trusted: harness/ref/match, harness/ref/codec (strict parsing of every received byte), the reference model in harness/p_broker/model.go, and the barrier argument (a PINGRESP proves that everything the broker did for earlier packets of that client is committed). Known finding empty-level is excluded by a variant model run in lock-step.',
+        rule='rapid-generated plans; non-trivial = a request with >= 4 filters or with an invalid filter/QoS, or an unsubscribe of a held filter followed by deliveries that distinguish the outcome; distinct = FNV-64 of the plan JSON',
+        assumptions=["sequential execution; 'takes effect at the ack' is judged for publishes sent after the ack was read"],
+        units=[dict(name="sequential", test="TestC07", checks=(1000, 30000), shards=(4, 14), timeout=(240, 3000))]),
+
+    "C08": dict(
+        pkg="p_broker", level="exploration",
+        technique='model-based property testing of retained/clearing publishes and later subscriptions against a reference retained store, with filler traffic overwriting the network buffers',
+        level_text="Generated histories of retained, non-retained and empty-payload publishes on parent/child topics (by raw clients and Server.Publish), later subscriptions with literal and wildcard filters, reconnects and >= 1 ring of filler traffic through the publisher's connection: every new subscription must receive, before the next PINGRESP, exactly the retained messages matching its filters (1..k copies for k listed matching filters) with retain flag 1, QoS min(stored, granted) and byte-identical payload; live forwards must carry retain flag 0. Sampling.",
+        level_note='Trusted: harness/ref/match, harness/ref/codec (strict parsing of every received byte), the reference model in harness/p_broker/model.go, and the barrier argument (a PINGRESP proves that everything the broker did for earlier packets of that client is committed). Known finding empty-level is excluded by a variant model run in lock-step.',
+        rule='rapid-generated plans; non-trivial = a subscription received retained messages in a plan that also has a retained replacement, a clear or >= 1 ring of filler; distinct = FNV-64 of the plan JSON',
+        assumptions=['the retain flag of deliveries to in-process callbacks (Server.Subscribe) is not judged: the callback sees the message object as published', 'sequential execution in this unit'],
+        units=[dict(name="sequential", test="TestC08", checks=(800, 25000), shards=(4, 14), timeout=(240, 3000))]),
+
+    "C09": dict(
+        pkg="p_broker", level="exploration",
+        technique='model-based property testing of connection generations with wills (QoS, retain, payload sizes incl. 0 and 64 KiB-1) ended by DISCONNECT, abrupt close or protocol error, observed by a witness subscriber',
+        level_text="Generated sequences of CONNECT (with/without will, CleanSession 0/1) and connection ends over 1-3 client identifiers; after the teardown-done event of the ended connection the witness (subscribed to '#' at QoS 2) is cut: it must have received exactly one PUBLISH with the ending connection's own will topic/payload/QoS (retain flag 0 live, retained store updated iff will-retain) for abnormal ends and nothing after a DISCONNECT packet; never a will of an earlier generation. Sampling.",
+        level_note='Trusted: harness/ref/match, harness/ref/codec (strict parsing of every received byte), the reference model in harness/p_broker/model.go, and the barrier argument (a PINGRESP proves that everything the broker did for earlier packets of that client is committed). Known finding empty-level is excluded by a variant model run in lock-step.',
+        rule='rapid-generated plans; non-trivial = a will became due on a resumed session (an earlier generation of the id existed) or a held will was suppressed by DISCONNECT; distinct = FNV-64 of the plan JSON',
+        assumptions=['keep-alive expiry as a cause of connection end is covered by C19', 'one live connection per client identifier'],
+        units=[dict(name="sequential", test="TestC09", checks=(600, 15000), shards=(4, 14), timeout=(240, 3000))]),
+
+    "C10": dict(
+        pkg="p_broker", level="exploration",
+        technique='model-based property testing of connect(CleanSession 0/1)/subscribe/unsubscribe/disconnect/close sequences over several client identifiers against a reference session store',
+        level_text="Generated sequences over 2-4 client identifiers: every CONNACK's SessionPresent flag must equal the model's (1 iff CleanSession=0 and state from an earlier CleanSession=0 connection of that id was kept and not discarded by a CleanSession=1 connection since); after the reconnect's first answered request publishes on probe topics must be delivered exactly according to the restored subscriptions and their granted QoS without re-subscribing; nothing of a clean session survives; subscriptions of one identifier never deliver to another. Sampling.",
+        level_note='Trusted: harness/ref/match, harness/ref/codec (strict parsing of every received byte), the reference model in harness/p_broker/model.go, and the barrier argument (a PINGRESP proves that everything the broker did for earlier packets of that client is committed). Known finding empty-level is excluded by a variant model run in lock-step.',
+        rule='rapid-generated plans; non-trivial = a session was resumed that held subscriptions; distinct = FNV-64 of the plan JSON',
+        assumptions=['offline queueing/redelivery is unsupported by the library (README) and not asserted', 'one live connection per client identifier: the harness waits for teardown-done before reusing an id'],
+        units=[dict(name="sequential", test="TestC10", checks=(800, 25000), shards=(4, 14), timeout=(240, 3000))]),
+
     "C13": dict(
         pkg="p_ackq", level="exploration",
         technique="model-based property testing: small-scope exhaustive enumeration + rapid random histories against a list model",
@@ -41,6 +77,19 @@ CHECKS = {
             dict(name="exhaustive", test="TestExhaustive", kind="enum", shards=(4, 14), timeout=(200, 1500)),
             dict(name="random", test="TestRandom", kind="rapid", checks=(2000, 150000), shards=(4, 14), timeout=(200, 1500)),
         ]),
+
+    "C01": dict(
+        pkg="p_broker", level="exploration",
+        technique="model-based property testing: rapid-generated multi-client plans executed against a real in-process broker over net.Pipe, cut at PINGREQ/PINGRESP barriers, compared with a reference broker model",
+        level_text=("Generated histories of connect / subscribe / unsubscribe / publish / disconnect / in-process Subscribe and Publish by 2-5 raw clients and 0-2 in-process subscribers run against a "
+                    "real broker; after every publish each connected client's stream is cut exactly (publisher barrier, then receiver barrier) and the PUBLISH packets it received are compared "
+                    "with the reference model: recipients, 1..k copies for k matching subscriptions, QoS min(publish, granted) assignable to distinct subscriptions, topic and payload byte-identical, "
+                    "nothing for non-recipients. Payload sizes include 0, ~4 KiB, just below and exactly at the packet limit. Sampling."),
+        level_note=("Trusted: harness/ref/match, the model in harness/p_broker, harness/ref/codec (strict parsing of every received byte), the barrier argument (fan-out is synchronous in the publisher's "
+                    "processor). Sequential plans only in this unit; interleavings of clients are covered by C17/C18."),
+        rule=("rapid-generated plans (8-40 ops); non-trivial = some publish had >= 1 recipient while >= 1 connected client was not a recipient; distinct = FNV-64 of the plan JSON"),
+        assumptions=["topics and filters never start with '$'", "one live connection per client identifier", "sequential execution with exact cuts"],
+        units=[dict(name="sequential", test="TestC01", checks=(1200, 30000), shards=(4, 14), timeout=(240, 3000))]),
 
     "C03": dict(
         pkg="p_codec", level="exploration",
